@@ -17,7 +17,7 @@
 (* of client-visible messages with which TLC judges every reachable state  *)
 (* of the real model (JudgeRegister).                                      *)
 (* log entry: [dir (1 = delivered, 2 = sent), src, dst, kind (1 Put, 2 Get,*)
-(* 3 PutOk, 4 GetOk), req, val]                                            *)
+(* 3 PutOk, 4 GetOk, 5 PutFail -- write-once variant), req, val]           *)
 (***************************************************************************)
 EXTENDS Consistency, Integers
 
@@ -26,14 +26,14 @@ ValZ(c, S) == 90 - (c - S)           \* 'Z' - k
 
 (* ---------------- operators over a log (used by the judge) ---------------- *)
 IsReq(e) == e.dir = 2 /\ e.kind \in {1, 2}
-IsRep(e) == e.dir = 1 /\ e.kind \in {3, 4}
+IsRep(e) == e.dir = 1 /\ e.kind \in {3, 4, 5}        \* 5 = PutFail (write-once register harness)
 (* the history the hooks must have recorded *)
 RECURSIVE HistOf(_)
 HistOf(log) ==
   IF log = <<>> THEN <<>>
   ELSE LET e == Head(log)
            ev == IF IsReq(e) THEN <<[k |-> "inv", t |-> e.src, x |-> IF e.kind = 1 THEN Op("w", e.val) ELSE Op("r", 0)]>>
-                 ELSE IF IsRep(e) THEN <<[k |-> "ret", t |-> e.dst, x |-> IF e.kind = 3 THEN Ret("wok", 0) ELSE Ret("rok", e.val)]>>
+                 ELSE IF IsRep(e) THEN <<[k |-> "ret", t |-> e.dst, x |-> IF e.kind = 3 THEN Ret("wok", 0) ELSE IF e.kind = 5 THEN Ret("wfail", 0) ELSE Ret("rok", e.val)]>>
                  ELSE <<>>
        IN ev \o HistOf(Tail(log))
 
